@@ -379,11 +379,14 @@ def verify_group(ctx, g: Group):
         #  - a group without loop contracts of its own is verified as usual (the broken contract belongs to another function of the unit);
         #  - a group with loop contracts falls back to the bounded stand-in (contract enforced on the unwound code, small inputs): a failing
         #    postcondition there is a violation with a replayable input; otherwise the group stays undecided (the proof is broken, exit 2).
-        if g.loops and not (g.fallback_unwind and g.replay is not None and g.replay.small_define):
+        broken = sorted(set(re.findall(r"In function '(\w+)'", str(ex))))
+        mine = (not broken) or (g.enforce in broken)
+        if g.loops and mine and not (g.fallback_unwind and g.replay is not None and g.replay.small_define):
             raise
         try:
-            if not g.loops:
-                g.defines = list(g.defines) + ['VERIF_NO_LOOP_CONTRACTS=1']
+            if not (g.loops and mine):
+                # the loop contracts that do not compile belong to other functions of the unit: switched off function by function
+                g.defines = list(g.defines) + (['VERIF_NO_LOOP_CONTRACTS_%s=1' % f for f in broken] or ['VERIF_NO_LOOP_CONTRACTS=1'])
                 binary = compile_group(ctx, g)
             else:
                 return _bounded_only(ctx, g, str(ex))
